@@ -4,6 +4,7 @@ import (
 	"fmt"
 	"go/token"
 	"go/types"
+	"regexp/syntax"
 	"sort"
 	"strings"
 
@@ -2061,4 +2062,1968 @@ func c09r10(c *Ctx, r *Report) {
 			"no condition of the filter consults the match count", fmt.Sprintf("the condition at %s depends on Merger.Length(), the number of matches: with a query, items beyond minIndex+matches are dropped from the selection although they were not trimmed", bad))
 	})
 	r.floor("entries copied into the filtered selection", n, 1)
+}
+
+// accentTableKeys returns the number of constant keys of the map literal stored into g and their span.
+func accentTableKeys(l *Loaded, g *ssa.Global) (n int, minK, maxK int64) {
+	minK, maxK = int64(1)<<62, int64(-1)
+	for _, f := range l.AllFuncs() {
+		eachInstr(f, func(in ssa.Instruction) {
+			mu, ok := in.(*ssa.MapUpdate)
+			if !ok {
+				return
+			}
+			isTab := false
+			if mm, ok := mu.Map.(*ssa.MakeMap); ok && mm.Referrers() != nil {
+				for _, ref := range *mm.Referrers() {
+					if st, ok := ref.(*ssa.Store); ok && st.Addr == ssa.Value(g) {
+						isTab = true
+					}
+				}
+			}
+			if !isTab {
+				return
+			}
+			k, isc := constIntVal(mu.Key)
+			if !isc {
+				return
+			}
+			n++
+			if k < minK {
+				minK = k
+			}
+			if k > maxK {
+				maxK = k
+			}
+		})
+	}
+	return
+}
+
+// c02r10: the pattern side (NormalizeRunes, which also decides whether a term "carries an accent") and the
+// text side (normalizeRune) fold through the same table behind a fast-path range test. Every lookup of the
+// table, in whatever function, must sit behind a range that covers all keys of the table — otherwise the two
+// sides disagree about which letters are folded (round-7 mutant C01a7 narrowed NormalizeRunes' range to
+// U+024F: a query `việt` was taken for unaccented, kept its `ệ`, and no longer matched `tiếng việt`).
+func c02r10(c *Ctx, r *Report) {
+	l := c.L
+	r.rule("C02-R10", "E/H (every reader of the table behind a covering guard)", "P1",
+		"in package algo, every lookup of the map `normalized` is reached only under comparisons of the looked-up key with constants lo and hi such that all keys of the table lie in [lo, hi]",
+		"a term with a letter the table folds but the pattern-side fast path skips is treated as unaccented: the line's letter is folded, the term's is not, and the matching line is dropped")
+	g := l.Global("algo", "normalized")
+	if g == nil {
+		r.unest("anchors", token.NoPos, nil, "anchor algo.normalized", "cannot resolve")
+		return
+	}
+	n, minK, maxK := accentTableKeys(l, g)
+	if n == 0 {
+		r.unest("anchors", token.NoPos, nil, "keys of the accent table", "none found")
+		return
+	}
+	sites := 0
+	for _, fn := range l.AllFuncs() {
+		if fn.Pkg != l.pkg("algo") || fn.Blocks == nil {
+			continue
+		}
+		var pc *PathConds
+		k := 0
+		eachInstr(fn, func(in ssa.Instruction) {
+			lk, ok := in.(*ssa.Lookup)
+			if !ok {
+				return
+			}
+			if u, ok := lk.X.(*ssa.UnOp); !ok || u.X != ssa.Value(g) {
+				return
+			}
+			sites++
+			k++
+			if pc == nil {
+				pc = pathConds(fn)
+			}
+			covered, reach := pc.Implies(in.Block(), func(lits []Lit) bool {
+				lo, hi := int64(-1), int64(-1)
+				for _, lt := range lits {
+					x, op, kk, ok := cmpInt(lt.Atom)
+					if !ok || x != lk.Index {
+						continue
+					}
+					switch {
+					case op == token.LSS && !lt.Val, op == token.GEQ && lt.Val:
+						lo = kk
+					case op == token.LEQ && !lt.Val, op == token.GTR && lt.Val:
+						lo = kk + 1
+					case op == token.GTR && !lt.Val, op == token.LEQ && lt.Val:
+						hi = kk
+					case op == token.GEQ && !lt.Val, op == token.LSS && lt.Val:
+						hi = kk - 1
+					}
+				}
+				return lo >= 0 && hi >= 0 && lo <= minK && maxK <= hi
+			})
+			r.check(covered && reach, fmt.Sprintf("%s:lookup #%d of the accent table is behind a covering range", relName(fn), k), lk.Pos(), fn,
+				fmt.Sprintf("the range test in front of it covers all %d keys [%#x, %#x]", n, minK, maxK), fmt.Sprintf("the range test in front of this lookup does not cover the table's keys [%#x, %#x]: letters outside it are folded by the other side only", minK, maxK))
+		})
+	}
+	r.floor("lookups of the accent table", sites, 3)
+}
+
+// c01r7: an OR group is satisfied by its first satisfied alternative. In extendedMatch the loop over the
+// alternatives of a group may therefore be left early only when the group has just been satisfied; an
+// alternative that failed (a negated term whose text occurs) must move on to the next one (round-7 mutant
+// C01c7: `continue` became `break` for a failed negated alternative, so `!foo | bar` dropped lines that
+// contain both).
+func c01r7(c *Ctx, r *Report) {
+	l := c.L
+	r.rule("C01-R7", "A (every early exit of the alternatives loop carries `matched`)", "P1",
+		"in Pattern.extendedMatch, on every edge that leaves the loop over the terms of one OR group other than its exhaustion, the flag that is tested after the loop is the constant true",
+		"a line that satisfies a later alternative of an OR group is dropped because an earlier alternative failed")
+	em := l.Fn("fzf", "(*Pattern).extendedMatch")
+	iter := l.Fn("fzf", "(*Pattern).iter")
+	if em == nil || iter == nil {
+		r.unest("anchors", token.NoPos, nil, "anchors Pattern.extendedMatch / Pattern.iter", "cannot resolve")
+		return
+	}
+	var iterBlock *ssa.BasicBlock
+	eachInstr(em, func(in ssa.Instruction) {
+		if call, ok := in.(*ssa.Call); ok && callIs(call.Common(), iter) {
+			iterBlock = in.Block()
+		}
+	})
+	var lp *natLoop
+	loops := natLoops(em)
+	for i := range loops {
+		if iterBlock != nil && loops[i].body[iterBlock] && (lp == nil || len(loops[i].body) < len(lp.body)) {
+			lp = &loops[i]
+		}
+	}
+	if lp == nil {
+		r.unest("anchors", token.NoPos, em, "the loop over the alternatives of an OR group (the innermost loop around the call of Pattern.iter)", "cannot find it")
+		return
+	}
+	n := 0
+	// the block the loop continues in when the alternatives are exhausted; `break` edges end there as well
+	var exit *ssa.BasicBlock
+	for _, t := range lp.hdr.Succs {
+		if !lp.body[t] {
+			exit = t
+		}
+	}
+	if exit == nil {
+		r.unest("anchors", token.NoPos, em, "the exit block of the alternatives loop", "cannot find it")
+		return
+	}
+	for ei, b := range exit.Preds {
+		if b == lp.hdr {
+			continue
+		}
+		for _, in := range exit.Instrs {
+			phi, ok := in.(*ssa.Phi)
+			if !ok {
+				break
+			}
+			if bt, ok := phi.Type().Underlying().(*types.Basic); !ok || bt.Kind() != types.Bool {
+				continue
+			}
+			n++
+			e := phi.Edges[ei]
+			k, isK := e.(*ssa.Const)
+			isTrue := isK && k.Value != nil && k.Value.String() == "true"
+			r.check(isTrue, fmt.Sprintf("%s:early exit #%d of the alternatives loop has satisfied the group", relName(em), n), b.Instrs[len(b.Instrs)-1].Pos(), em,
+				"the group's flag is true on this exit", "the loop over the alternatives is left with the group not (necessarily) satisfied: the remaining alternatives are never tried")
+		}
+	}
+	r.floor("early exits of the alternatives loop", n, 1)
+}
+
+// controlConds computes, for every block of fn, the branch conditions the block is (transitively) control
+// dependent on: block B depends on the branch ending block A when one successor of A is post-dominated by B
+// (or is B) and A itself is not strictly post-dominated by B. Unlike a path condition this forgets the tests
+// whose two arms have merged again before B.
+func controlConds(fn *ssa.Function) map[*ssa.BasicBlock]map[ssa.Value]bool {
+	n := len(fn.Blocks)
+	// post-dominator sets by iteration over the reversed graph; exits are the blocks without successors
+	pdom := make([]map[int]bool, n)
+	all := map[int]bool{}
+	for i := 0; i < n; i++ {
+		all[i] = true
+	}
+	for i, b := range fn.Blocks {
+		if len(b.Succs) == 0 {
+			pdom[i] = map[int]bool{i: true}
+		} else {
+			pdom[i] = all
+		}
+	}
+	for changed := true; changed; {
+		changed = false
+		for i := n - 1; i >= 0; i-- {
+			b := fn.Blocks[i]
+			if len(b.Succs) == 0 {
+				continue
+			}
+			var inter map[int]bool
+			for _, s := range b.Succs {
+				ps := pdom[s.Index]
+				if inter == nil {
+					inter = map[int]bool{}
+					for k := range ps {
+						inter[k] = true
+					}
+				} else {
+					for k := range inter {
+						if !ps[k] {
+							delete(inter, k)
+						}
+					}
+				}
+			}
+			inter[i] = true
+			if len(inter) != len(pdom[i]) {
+				pdom[i] = inter
+				changed = true
+			}
+		}
+	}
+	direct := map[*ssa.BasicBlock]map[*ssa.BasicBlock]bool{}
+	for _, a := range fn.Blocks {
+		if len(a.Succs) < 2 {
+			continue
+		}
+		for _, s := range a.Succs {
+			for bi := range pdom[s.Index] {
+				// bi post-dominates s; it depends on a unless it also strictly post-dominates a
+				if bi != a.Index && pdom[a.Index][bi] {
+					continue
+				}
+				b := fn.Blocks[bi]
+				if direct[b] == nil {
+					direct[b] = map[*ssa.BasicBlock]bool{}
+				}
+				direct[b][a] = true
+			}
+		}
+	}
+	out := map[*ssa.BasicBlock]map[ssa.Value]bool{}
+	for _, b := range fn.Blocks {
+		seen := map[*ssa.BasicBlock]bool{}
+		conds := map[ssa.Value]bool{}
+		var rec func(x *ssa.BasicBlock)
+		rec = func(x *ssa.BasicBlock) {
+			for a := range direct[x] {
+				if seen[a] {
+					continue
+				}
+				seen[a] = true
+				if iff, ok := a.Instrs[len(a.Instrs)-1].(*ssa.If); ok {
+					conds[iff.Cond] = true
+				}
+				rec(a)
+			}
+		}
+		rec(b)
+		out[b] = conds
+	}
+	return out
+}
+
+// c04r13: with --no-sort (and for a negated-only or empty query) the merger concatenates the per-partition
+// result lists in partition order, so the partitions have to be CONTIGUOUS runs of the chunk list in input
+// order. sliceChunks therefore hands out sub-slices `chunks[a:b]` (round-7 mutant C04a7 dealt the chunks out
+// round-robin to balance the load: with more chunks than partitions the unsorted order was shuffled).
+func c04r13(c *Ctx, r *Report) {
+	l := c.L
+	r.rule("C04-R13", "D (provenance: every partition is a sub-slice of the input)", "P1",
+		"in Matcher.sliceChunks, every value stored into an element of the returned [][]*Chunk is a slice expression over the `chunks` parameter (not a list built by append)",
+		"--no-sort / negated-only / empty-query results are not in input order once there are more chunks than partitions")
+	sc := l.Fn("fzf", "(*Matcher).sliceChunks")
+	if sc == nil || len(sc.Params) < 2 {
+		r.unest("anchors", token.NoPos, nil, "anchor Matcher.sliceChunks", "cannot resolve")
+		return
+	}
+	chunks := sc.Params[1]
+	n := 0
+	eachInstr(sc, func(in ssa.Instruction) {
+		st, ok := in.(*ssa.Store)
+		if !ok {
+			return
+		}
+		ia, ok := st.Addr.(*ssa.IndexAddr)
+		if !ok {
+			return
+		}
+		sl, ok := ia.X.Type().Underlying().(*types.Slice)
+		if !ok {
+			return
+		}
+		if _, ok := sl.Elem().Underlying().(*types.Slice); !ok {
+			return
+		}
+		n++
+		x, isSlice := st.Val.(*ssa.Slice)
+		r.check(isSlice && x.X == ssa.Value(chunks), fmt.Sprintf("%s:partition #%d is a contiguous run", relName(sc), n), st.Pos(), sc,
+			"the partition is chunks[a:b]", "the partition is not a sub-slice of the chunk list: the concatenation of the partitions is no longer the input order")
+	})
+	r.floor("partitions stored by sliceChunks", n, 1)
+}
+
+// c05r12: matchChunk calls Pattern.MatchItem from four loops (full scan / narrowed by a cached superset,
+// with and without exclusions). Whether positions are computed changes the reported range (FuzzyMatchV2
+// documents that), hence the sort key; so all four must pass the pattern's own withPos (round-7 mutant C05a7
+// passed `false` in the narrowed loop only: the rank of a line depended on whether an earlier query had
+// populated the cache).
+func c05r12(c *Ctx, r *Report) {
+	l := c.L
+	r.rule("C05-R12", "E (sibling call sites agree on an argument)", "P1",
+		"every call of Pattern.MatchItem in Pattern.matchChunk passes a load of Pattern.withPos as its withPos argument",
+		"the match range, and with it the chunk/pathname/begin/end sort key, of a line depends on the query history (cache hit or not)")
+	mc := l.Fn("fzf", "(*Pattern).matchChunk")
+	mi := l.Fn("fzf", "(*Pattern).MatchItem")
+	if mc == nil || mi == nil {
+		r.unest("anchors", token.NoPos, nil, "anchors Pattern.matchChunk / Pattern.MatchItem", "cannot resolve")
+		return
+	}
+	n := 0
+	eachInstr(mc, func(in ssa.Instruction) {
+		call, ok := in.(*ssa.Call)
+		if !ok || !callIs(call.Common(), mi) {
+			return
+		}
+		n++
+		fld, _ := loadedField(call.Call.Args[2])
+		r.check(fld != nil && fld.Name() == "withPos", fmt.Sprintf("%s:MatchItem call #%d passes p.withPos", relName(mc), n), call.Pos(), mc,
+			"withPos is the pattern's own setting", "this call does not pass Pattern.withPos: the same line gets a different range here than in the sibling loops")
+	})
+	r.floor("MatchItem calls in matchChunk", n, 4)
+}
+
+// c05r13: one Pattern is shared by all matcher workers (and by the terminal, which re-matches the visible
+// lines). Everything reachable from Pattern.MatchItem therefore has to treat the Pattern as read-only
+// (round-7 mutant C05c7 kept a one-element token array in the Pattern "to avoid an allocation per item": two
+// workers overwrote each other's token and lines were matched against another line's text).
+func c05r13(c *Ctx, r *Report) {
+	l := c.L
+	r.rule("C05-R13", "B (no writer of shared state on the workers' path)", "P1",
+		"no function reachable through static calls from Pattern.MatchItem stores into memory addressed through a *Pattern (a field of the Pattern, or an element of an array field)",
+		"two workers scribble on the same scratch field of the shared Pattern: a line is matched against another line's text, depending on scheduling")
+	mi := l.Fn("fzf", "(*Pattern).MatchItem")
+	pat := l.Named("fzf", "Pattern")
+	if mi == nil || pat == nil {
+		r.unest("anchors", token.NoPos, nil, "anchors Pattern.MatchItem / Pattern", "cannot resolve")
+		return
+	}
+	reach := map[*ssa.Function]bool{}
+	var walk func(f *ssa.Function)
+	walk = func(f *ssa.Function) {
+		if f == nil || reach[f] || f.Blocks == nil || f.Pkg == nil || !isModulePkg(f.Pkg.Pkg) {
+			return
+		}
+		reach[f] = true
+		eachInstr(f, func(in ssa.Instruction) {
+			walk(staticCallee(in))
+			if mcl, ok := in.(*ssa.MakeClosure); ok {
+				walk(mcl.Fn.(*ssa.Function))
+			}
+		})
+	}
+	walk(mi)
+	var fns []*ssa.Function
+	for f := range reach {
+		fns = append(fns, f)
+	}
+	sort.Slice(fns, func(i, j int) bool { return relName(fns[i]) < relName(fns[j]) })
+	n := 0
+	for _, f := range fns {
+		k := 0
+		eachInstr(f, func(in ssa.Instruction) {
+			st, ok := in.(*ssa.Store)
+			if !ok {
+				return
+			}
+			n++
+			root := addrRoot(st.Addr)
+			through := false
+			if root != nil {
+				if pt, ok := root.Type().(*types.Pointer); ok {
+					if nn, ok := pt.Elem().(*types.Named); ok && nn.Obj() == pat.Obj() {
+						if _, isAlloc := root.(*ssa.Alloc); !isAlloc {
+							through = true
+						}
+					}
+				}
+			}
+			if through {
+				k++
+				r.bad(fmt.Sprintf("%s:store #%d through the shared Pattern", relName(f), k), st.Pos(), f, "the Pattern is read-only on the matching path", "a worker writes into the Pattern that all workers share")
+			}
+		})
+	}
+	r.ok(relName(mi)+":Pattern is read-only below MatchItem", mi.Pos(), mi, fmt.Sprintf("%d functions reachable from MatchItem, %d stores inspected, none through a *Pattern", len(fns), n))
+	r.floor("functions reachable from Pattern.MatchItem", len(fns), 8)
+}
+
+// c08r16: a cached merger is valid for one revision of the input. With --tail the minor revision changes
+// while the item count stays the same, so the count check cannot stand in for it: wherever Matcher.Loop sees
+// that the request's revision differs from its own, every path to the next scan replaces the merger cache
+// (round-7 mutant C06a7 kept the cache for compatible revisions "because the count check catches the rest":
+// a trimmed stream re-served the merger of the untrimmed snapshot).
+func c08r16(c *Ctx, r *Report) {
+	l := c.L
+	r.rule("C08-R16", "A (must-pass-through on the `revision differs` edge)", "P1",
+		"in Matcher.Loop, from the edge on which MatchRequest.revision differs from Matcher.revision every path to the call of scan passes `m.mergerCache = make(..)`",
+		"with --tail and a constant item count the match list of an older, differently trimmed snapshot is served from the merger cache")
+	mloop := l.Fn("fzf", "(*Matcher).Loop")
+	scan := l.Fn("fzf", "(*Matcher).scan")
+	fMC := l.Field("fzf", "Matcher", "mergerCache")
+	if mloop == nil || scan == nil || fMC == nil {
+		r.unest("anchors", token.NoPos, nil, "anchors Matcher.Loop / scan / Matcher.mergerCache", "cannot resolve")
+		return
+	}
+	isRev := func(v ssa.Value, owner string) bool {
+		fld, base := loadedField(v)
+		if fld == nil || fld.Name() != "revision" || base == nil {
+			return false
+		}
+		n, ok := deref(base.Type()).(*types.Named)
+		return ok && n.Obj().Name() == owner
+	}
+	n := 0
+	eachInstr(mloop, func(in ssa.Instruction) {
+		ifi, ok := in.(*ssa.If)
+		if !ok {
+			return
+		}
+		atom, neg := normCond(ifi.Cond)
+		b, ok := atom.(*ssa.BinOp)
+		if !ok || (b.Op != token.EQL && b.Op != token.NEQ) {
+			return
+		}
+		if !(isRev(b.X, "MatchRequest") && isRev(b.Y, "Matcher") || isRev(b.Y, "MatchRequest") && isRev(b.X, "Matcher")) {
+			return
+		}
+		n++
+		eqTrue := (b.Op == token.EQL) != neg
+		diff := ifi.Block().Succs[1]
+		if !eqTrue {
+			diff = ifi.Block().Succs[0]
+		}
+		start := diff.Instrs[0]
+		isReset := func(i ssa.Instruction) bool {
+			st, ok := i.(*ssa.Store)
+			if !ok {
+				return false
+			}
+			fld, _ := fieldOf(st.Addr)
+			_, isMake := st.Val.(*ssa.MakeMap)
+			return fld == fMC && isMake
+		}
+		goal := ssa.Instruction(nil)
+		if !isReset(start) {
+			goal = pathAvoiding(start, func(i ssa.Instruction) bool { return staticCallee(i) == scan || isReturn(i) }, isReset, nil)
+			if staticCallee(start) == scan {
+				goal = start
+			}
+		}
+		r.check(goal == nil, fmt.Sprintf("%s:revision change #%d resets mergerCache", relName(mloop), n), b.Pos(), mloop,
+			"a different revision replaces the merger cache before the next scan", "a request with a different (minor) revision can reach the scan with the old merger cache in place")
+	})
+	r.floor("revision comparisons in Matcher.Loop", n, 1)
+}
+
+// condsOf returns the branch conditions block b is control dependent on in fn (cached per function).
+type cdCache map[*ssa.Function]map[*ssa.BasicBlock]map[ssa.Value]bool
+
+func (cc cdCache) of(in ssa.Instruction) map[ssa.Value]bool {
+	fn := in.Parent()
+	if cc[fn] == nil {
+		cc[fn] = controlConds(fn)
+	}
+	return cc[fn][in.Block()]
+}
+
+// dependsOnCall reports whether v is computed from a call satisfying pred (intra-procedural slice).
+func dependsOnCall(v ssa.Value, pred func(*ssa.Call) bool) bool {
+	for w := range backwardSlice(v, func(*ssa.CallCommon) bool { return true }, nil) {
+		if call, ok := w.(*ssa.Call); ok && pred(call) {
+			return true
+		}
+	}
+	return false
+}
+
+// c07r8..r10: three decisions on the output path whose conditions must stay exactly what they are.
+func c07r8(c *Ctx, r *Report) {
+	l := c.L
+	cc := cdCache{}
+	// ---- R8: keyMatch
+	r.rule("C07-R8", "A (control dependence of a comparison)", "P1",
+		"in keyMatch, the comparison of the Char fields of the two events is control dependent on nothing but the comparison of their Type fields",
+		"--expect (and every other lookup through keyMatch) treats all keys of one class as the same key: with `--expect alt-a`, alt-b is reported as alt-a")
+	if km := l.Fn("fzf", "keyMatch"); km == nil {
+		r.unest("anchors", token.NoPos, nil, "anchor keyMatch", "cannot resolve")
+	} else {
+		isFld := func(v ssa.Value, name string) bool {
+			fld, _ := loadedField(v)
+			if fld == nil {
+				if f2, ok := v.(*ssa.Field); ok {
+					return f2.X.Type().Underlying().(*types.Struct).Field(f2.Field).Name() == name
+				}
+				return false
+			}
+			return fld.Name() == name
+		}
+		n := 0
+		eachInstr(km, func(in ssa.Instruction) {
+			b, ok := in.(*ssa.BinOp)
+			if !ok || (b.Op != token.EQL && b.Op != token.NEQ) || !isFld(b.X, "Char") || !isFld(b.Y, "Char") {
+				return
+			}
+			n++
+			why := ""
+			for cond := range cc.of(in) {
+				cb, ok := cond.(*ssa.BinOp)
+				if ok && (cb.Op == token.EQL || cb.Op == token.NEQ) && isFld(cb.X, "Type") && isFld(cb.Y, "Type") {
+					continue
+				}
+				why = fmt.Sprintf("it is only made under the condition at %s", l.pos(cond.Pos()))
+			}
+			r.check(why == "", relName(km)+":Char compared whenever the types agree", b.Pos(), km, "the characters are compared for every key type", why+": keys of the other types match whatever their character")
+		})
+		r.floor("comparisons of Event.Char in keyMatch", n, 1)
+	}
+	// ---- R9: the child's stdout
+	r.rule("C07-R9", "A (control dependence of a redirection)", "P1",
+		"in Terminal.executeCommand, a store of anything but os.Stdout into exec.Cmd.Stdout is not control dependent on a property of os.Stderr",
+		"with fzf's stdout piped and stderr on the terminal, the output of execute(...) commands goes into fzf's own output")
+	if ec := l.Fn("fzf", "(*Terminal).executeCommand"); ec == nil {
+		r.unest("anchors", token.NoPos, nil, "anchor Terminal.executeCommand", "cannot resolve")
+	} else {
+		isGlobalLoad := func(v ssa.Value, name string) bool {
+			found := false
+			for w := range backwardSlice(v, nil, nil) {
+				if u, ok := w.(*ssa.UnOp); ok && u.Op == token.MUL {
+					if g, ok := u.X.(*ssa.Global); ok && g.Name() == name && g.Pkg.Pkg.Path() == "os" {
+						found = true
+					}
+				}
+			}
+			return found
+		}
+		n := 0
+		for _, f := range withClosures(ec) {
+			eachInstr(f, func(in ssa.Instruction) {
+				st, ok := in.(*ssa.Store)
+				if !ok {
+					return
+				}
+				fld, _ := fieldOf(st.Addr)
+				if fld == nil || fld.Name() != "Stdout" || fld.Pkg() == nil || fld.Pkg().Path() != "os/exec" {
+					return
+				}
+				if isGlobalLoad(st.Val, "Stdout") {
+					return
+				}
+				n++
+				why := ""
+				for cond := range cc.of(in) {
+					if dependsOnCall(cond, func(call *ssa.Call) bool {
+						for _, a := range call.Call.Args {
+							if isGlobalLoad(a, "Stderr") {
+								return true
+							}
+						}
+						return false
+					}) {
+						why = l.pos(cond.Pos())
+					}
+				}
+				r.check(why == "", fmt.Sprintf("%s:redirection #%d of the command's stdout depends on fzf's stdout only", relName(ec), n), st.Pos(), f,
+					"independent of os.Stderr", fmt.Sprintf("the redirection happens only under a condition on os.Stderr (%s)", why))
+			})
+		}
+		r.floor("redirections of the command's stdout", n, 1)
+	}
+	// ---- R10: the selection is printed whatever the list shows
+	r.rule("C07-R10", "A (control dependence of the print loop)", "P1",
+		"in Terminal.output, the calls of the printer for the selected items are not control dependent on Merger.Length()",
+		"accept with a non-empty selection prints nothing (exit 1) when the current query matches nothing")
+	out := l.Fn("fzf", "(*Terminal).output")
+	mlen := l.Fn("fzf", "(*Merger).Length")
+	ss := l.Fn("fzf", "(*Terminal).sortSelected")
+	if out == nil || mlen == nil || ss == nil {
+		r.unest("anchors", token.NoPos, nil, "anchors Terminal.output / Merger.Length / sortSelected", "cannot resolve")
+		return
+	}
+	n := 0
+	eachInstr(out, func(in ssa.Instruction) {
+		call, ok := in.(*ssa.Call)
+		if !ok || call.Common().IsInvoke() {
+			return
+		}
+		fld, _ := loadedField(call.Common().Value)
+		if fld == nil || fld.Name() != "printer" {
+			return
+		}
+		// only the prints fed from the selection
+		if len(call.Call.Args) == 0 || !dependsOnCall(call.Call.Args[0], func(c2 *ssa.Call) bool { return callIs(c2.Common(), ss) }) {
+			return
+		}
+		n++
+		why := ""
+		for cond := range cc.of(in) {
+			if dependsOnCall(cond, func(c2 *ssa.Call) bool { return callIs(c2.Common(), mlen) }) {
+				why = l.pos(cond.Pos())
+			}
+		}
+		r.check(why == "", fmt.Sprintf("%s:print of the selection #%d does not depend on the match count", relName(out), n), call.Pos(), out,
+			"the selection is printed whatever the current list shows", fmt.Sprintf("the selection is printed only under a condition on Merger.Length() (%s)", why))
+	})
+	r.floor("prints of selected items in Terminal.output", n, 1)
+}
+
+// c06r10: outside Reader.feed (whose buffer discipline C06-R1 checks) a record handed to the pusher must be
+// backed by memory nothing rewrites: the items keep the slice. A string is such memory (round-7 mutant C06b7
+// copied the strings of Options.Input into a recycled slab: once the slab wrapped, earlier items changed).
+func c06r10(c *Ctx, r *Report) {
+	l := c.L
+	r.rule("C06-R10", "D (provenance of the pushed bytes)", "P1",
+		"in the methods of Reader other than feed, every value passed to Reader.pusher is converted from a string ([]byte(s) or stringBytes(s)), not a window of a byte buffer",
+		"library input (Options.Input) longer than the buffer: items that were already read change their text")
+	feed := l.Fn("fzf", "(*Reader).feed")
+	sb := l.Fn("fzf", "stringBytes")
+	n := 0
+	for _, fn := range l.AllFuncs() {
+		if fn.Blocks == nil || fn.Pkg != l.pkg("fzf") || rootFn(fn) == feed {
+			continue
+		}
+		rf := rootFn(fn)
+		if rf.Signature.Recv() == nil {
+			continue
+		}
+		if nn, ok := deref(rf.Signature.Recv().Type()).(*types.Named); !ok || nn.Obj().Name() != "Reader" {
+			continue
+		}
+		k := 0
+		eachInstr(fn, func(in ssa.Instruction) {
+			call, ok := in.(*ssa.Call)
+			if !ok || call.Common().IsInvoke() {
+				return
+			}
+			fld, _ := loadedField(call.Common().Value)
+			if fld == nil || fld.Name() != "pusher" {
+				return
+			}
+			n++
+			k++
+			a := call.Call.Args[0]
+			fromString := false
+			switch x := a.(type) {
+			case *ssa.Convert:
+				if bt, ok := x.X.Type().Underlying().(*types.Basic); ok && bt.Info()&types.IsString != 0 {
+					fromString = true
+				}
+			case *ssa.Call:
+				fromString = sb != nil && callIs(x.Common(), sb)
+			}
+			r.check(fromString, fmt.Sprintf("%s:record #%d handed to the pusher is backed by a string", relName(rf), k), call.Pos(), fn,
+				"the bytes come from a string", "the pushed bytes are a window of a buffer: a later write to the buffer changes an item that was already read")
+		})
+	}
+	r.floor("pushes outside Reader.feed", n, 2)
+}
+
+// c08r17: "did it change?" must be asked of the field that is then updated. change-nth compares the new
+// field selection with Terminal.nthCurrent and stores it there; comparing with the start-up value Terminal.nth
+// instead makes a change BACK to the start-up value look like no change (round-7 mutant C08b7/C10b7).
+func c08r17(c *Ctx, r *Report) {
+	l := c.L
+	r.rule("C08-R17", "E (the compared field is the assigned field)", "P1",
+		"every store into Terminal.nthCurrent that is control dependent on a compareRanges call gets, as one argument of that call, a load of Terminal.nthCurrent itself",
+		"change-nth back to the value fzf was started with sends no search request: the list stays that of the previous field selection")
+	fCur := l.Field("fzf", "Terminal", "nthCurrent")
+	cmp := l.Fn("fzf", "compareRanges")
+	if fCur == nil || cmp == nil {
+		r.unest("anchors", token.NoPos, nil, "anchors Terminal.nthCurrent / compareRanges", "cannot resolve")
+		return
+	}
+	cc := cdCache{}
+	n := 0
+	for _, fn := range l.AllFuncs() {
+		if fn.Blocks == nil || fn.Pkg != l.pkg("fzf") {
+			continue
+		}
+		eachInstr(fn, func(in ssa.Instruction) {
+			st, ok := in.(*ssa.Store)
+			if !ok {
+				return
+			}
+			if fld, _ := fieldOf(st.Addr); fld != fCur {
+				return
+			}
+			var guard *ssa.Call
+			for cond := range cc.of(in) {
+				for w := range backwardSlice(cond, func(*ssa.CallCommon) bool { return false }, nil) {
+					if call, ok := w.(*ssa.Call); ok && callIs(call.Common(), cmp) {
+						guard = call
+					}
+				}
+			}
+			if guard == nil {
+				return
+			}
+			n++
+			same := false
+			for _, a := range guard.Call.Args {
+				if fld, _ := loadedField(a); fld == fCur {
+					same = true
+				}
+			}
+			r.check(same, fmt.Sprintf("%s:nthCurrent #%d is compared before it is replaced", relName(rootFn(fn)), n), guard.Pos(), fn,
+				"the comparison reads Terminal.nthCurrent", "the store into Terminal.nthCurrent is guarded by a comparison with another field: a change back to that field's value is not seen as a change")
+		})
+	}
+	r.floor("guarded stores into Terminal.nthCurrent", n, 1)
+}
+
+// c08r18: an empty pattern lets the matcher skip the scan and pass the whole snapshot through. A pattern with
+// excluded items is never empty in that sense, in either syntax mode: every non-false return of IsEmpty has
+// consulted the denylist (round-7 mutant C08c7 folded the test into the extended branch only).
+func c08r18(c *Ctx, r *Report) {
+	l := c.L
+	r.rule("C08-R18", "A (every `true` answer has looked at the exclusions)", "P1",
+		"in Pattern.IsEmpty every return of a value other than the constant false either is reached only under a test of len(p.denylist) or returns a value computed from such a test",
+		"with --no-extended, an excluded item comes back into the list when the query is cleared")
+	ie := l.Fn("fzf", "(*Pattern).IsEmpty")
+	fDeny := l.Field("fzf", "Pattern", "denylist")
+	if ie == nil || fDeny == nil {
+		r.unest("anchors", token.NoPos, nil, "anchors Pattern.IsEmpty / Pattern.denylist", "cannot resolve")
+		return
+	}
+	onDeny := func(v ssa.Value) bool {
+		for w := range backwardSlice(v, nil, nil) {
+			if call, ok := w.(*ssa.Call); ok && calleeName(call.Common()) == "builtin.len" {
+				if fld, _ := loadedField(call.Call.Args[0]); fld == fDeny {
+					return true
+				}
+			}
+		}
+		return false
+	}
+	cc := cdCache{}
+	n := 0
+	eachInstr(ie, func(in ssa.Instruction) {
+		ret, ok := in.(*ssa.Return)
+		if !ok || len(ret.Results) != 1 {
+			return
+		}
+		rv := retResult(ret, 0)
+		if k, ok := rv.(*ssa.Const); ok && k.Value != nil && k.Value.String() == "false" {
+			return
+		}
+		n++
+		ok2 := onDeny(rv)
+		if phi, isPhi := rv.(*ssa.Phi); isPhi && !ok2 {
+			// a short-circuit `a && b`: one edge constant false, the others computed
+			for _, e := range phi.Edges {
+				if onDeny(e) {
+					ok2 = true
+				}
+			}
+		}
+		for cond := range cc.of(in) {
+			if onDeny(cond) {
+				ok2 = true
+			}
+		}
+		r.check(ok2, fmt.Sprintf("%s:return #%d has consulted the denylist", relName(ie), n), ret.Pos(), ie,
+			"the answer depends on len(p.denylist)", "this return can answer `empty` without having looked at the excluded items")
+	})
+	r.floor("non-false returns of Pattern.IsEmpty", n, 2)
+}
+
+// c09r11: a kill command saves the killed text for yank. The text has to be read from Terminal.input BEFORE the
+// same function rewrites Terminal.input in place (round-7 mutant C09a7 swapped the two statements of rubout:
+// with the cursor inside the query the yank buffer held the text that had moved into the gap).
+func c09r11(c *Ctx, r *Report) {
+	l := c.L
+	r.rule("C09-R11", "P (read-before-overwrite)", "P1",
+		"for every store into Terminal.yanked whose value is computed from a load of Terminal.input, no store into Terminal.input of the same function can reach that load",
+		"unix-word-rubout / backward-kill-word with the cursor inside the query: yank inserts the wrong text")
+	fIn := l.Field("fzf", "Terminal", "input")
+	fY := l.Field("fzf", "Terminal", "yanked")
+	if fIn == nil || fY == nil {
+		r.unest("anchors", token.NoPos, nil, "anchors Terminal.input / Terminal.yanked", "cannot resolve")
+		return
+	}
+	n := 0
+	for _, fn := range l.AllFuncs() {
+		if fn.Blocks == nil || fn.Pkg != l.pkg("fzf") {
+			continue
+		}
+		var inStores []ssa.Instruction
+		eachInstr(fn, func(in ssa.Instruction) {
+			if st, ok := in.(*ssa.Store); ok {
+				if fld, _ := fieldOf(st.Addr); fld == fIn {
+					inStores = append(inStores, in)
+				}
+			}
+		})
+		k := 0
+		eachInstr(fn, func(in ssa.Instruction) {
+			st, ok := in.(*ssa.Store)
+			if !ok {
+				return
+			}
+			if fld, _ := fieldOf(st.Addr); fld != fY {
+				return
+			}
+			var loads []ssa.Instruction
+			for w := range backwardSlice(st.Val, func(*ssa.CallCommon) bool { return true }, nil) {
+				if u, ok := w.(*ssa.UnOp); ok && u.Op == token.MUL {
+					if fld, _ := fieldOf(u.X); fld == fIn {
+						loads = append(loads, u)
+					}
+				}
+			}
+			if len(loads) == 0 {
+				return
+			}
+			n++
+			k++
+			bad := ""
+			for _, ld := range loads {
+				for _, s := range inStores {
+					if canReach(s, ld) && !canReach(ld, s) || s.Block() == ld.Block() && instrIndex(s) < instrIndex(ld) {
+						bad = l.pos(s.Pos())
+					}
+				}
+			}
+			r.check(bad == "", fmt.Sprintf("%s:yank #%d is taken from the query before the query is rewritten", relName(rootFn(fn)), k), st.Pos(), fn,
+				"the killed text is read before Terminal.input is stored", fmt.Sprintf("Terminal.input is rewritten at %s before the killed text is read from it", bad))
+		})
+	}
+	r.floor("stores into Terminal.yanked computed from the query", n, 3)
+}
+
+// c09r12: the terminal learns from a merger's revision that the input was reloaded (and drops the selection,
+// resets the caches of line heights). Every merger scan builds must therefore carry the request's revision,
+// also the one for an empty input (round-7 mutant C09b7 returned EmptyMerger(revision{}): a reload that
+// produces nothing kept the old selection).
+func c09r12(c *Ctx, r *Report) {
+	l := c.L
+	r.rule("C09-R12", "D (provenance of the revision handed to every merger constructor)", "P1",
+		"in Matcher.scan, every argument of type revision passed to EmptyMerger / PassMerger / NewMerger is a load of MatchRequest.revision",
+		"after a reload whose command prints nothing the old selection survives and is printed on accept")
+	scan := l.Fn("fzf", "(*Matcher).scan")
+	if scan == nil {
+		r.unest("anchors", token.NoPos, nil, "anchor Matcher.scan", "cannot resolve")
+		return
+	}
+	n := 0
+	for _, fn := range withClosures(scan) {
+		eachInstr(fn, func(in ssa.Instruction) {
+			call, ok := in.(*ssa.Call)
+			if !ok || call.Common().StaticCallee() == nil {
+				return
+			}
+			switch call.Common().StaticCallee().Name() {
+			case "EmptyMerger", "PassMerger", "NewMerger":
+			default:
+				return
+			}
+			for _, a := range call.Call.Args {
+				nt, ok := a.Type().(*types.Named)
+				if !ok || nt.Obj().Name() != "revision" {
+					continue
+				}
+				n++
+				fld, _ := loadedField(a)
+				r.check(fld != nil && fld.Name() == "revision", fmt.Sprintf("%s:revision of merger #%d is the request's", relName(scan), n), call.Pos(), fn,
+					"the merger carries MatchRequest.revision", "this merger is built with a revision that is not the request's: the terminal cannot tell that the input was reloaded")
+			}
+		})
+	}
+	r.floor("merger constructors called by scan", n, 3)
+}
+
+// c09r13: Merger.Get maps a display position to an item and Merger.FindIndex maps an item back to a
+// position (used by --track). For a pass-through merger both do it by arithmetic, and both have to mirror
+// the index under --tac (round-7 mutant C09c7 removed the mirroring from FindIndex only).
+func c09r13(c *Ctx, r *Report) {
+	l := c.L
+	r.rule("C09-R13", "E (two inverse mappings agree on the mirror)", "P1",
+		"Merger.Get and Merger.FindIndex each contain a subtraction from Merger.count that is control dependent on Merger.tac",
+		"--tac --track with an empty query: after the list grows the cursor jumps to the mirrored line")
+	fCount := l.Field("fzf", "Merger", "count")
+	fTac := l.Field("fzf", "Merger", "tac")
+	if fCount == nil || fTac == nil {
+		r.unest("anchors", token.NoPos, nil, "anchors Merger.count / Merger.tac", "cannot resolve")
+		return
+	}
+	cc := cdCache{}
+	for _, name := range []string{"(*Merger).Get", "(*Merger).FindIndex"} {
+		fn := l.Fn("fzf", name)
+		if fn == nil {
+			r.unest("anchors", token.NoPos, nil, "anchor "+name, "cannot resolve")
+			continue
+		}
+		mirrored := false
+		eachInstr(fn, func(in ssa.Instruction) {
+			b, ok := in.(*ssa.BinOp)
+			if !ok || b.Op != token.SUB {
+				return
+			}
+			if fld, _ := loadedField(b.X); fld != fCount {
+				return
+			}
+			for cond := range cc.of(in) {
+				for w := range backwardSlice(cond, nil, nil) {
+					if fld, _ := loadedField(w); fld == fTac {
+						mirrored = true
+					}
+				}
+			}
+		})
+		r.check(mirrored, relName(fn)+":mirrors the position under tac", fn.Pos(), fn, "count - x under tac", "no mirroring of the position under Merger.tac: the mapping disagrees with its inverse when --tac is set")
+	}
+}
+
+// c10r6: the same field-index grammar is accepted in plain form (`1,3..`) and inside the braces of a template
+// (`{1} {3..}`); the character class of the template's placeholder pattern has to be the class of the plain
+// form's validation pattern (round-7 mutant C10c7 allowed `-` only right after the brace: `{2..-1}` was no
+// longer a placeholder and was printed literally).
+func c10r6(c *Ctx, r *Report) {
+	l := c.L
+	r.rule("C10-R6", "E (agreement of constant patterns)", "P1",
+		"all constant regular expressions of splitNth and nthTransformer that contain a repeated character class use the same class",
+		"a field expression that is valid in plain form is not recognised inside a --with-nth / --accept-nth template")
+	var classes []string
+	var where []token.Pos
+	var fns []*ssa.Function
+	for _, name := range []string{"splitNth", "nthTransformer"} {
+		fn := l.Fn("fzf", name)
+		if fn == nil {
+			r.unest("anchors", token.NoPos, nil, "anchor "+name, "cannot resolve")
+			return
+		}
+		for _, f := range withClosures(fn) {
+			eachInstr(f, func(in ssa.Instruction) {
+				call, ok := in.(*ssa.Call)
+				if !ok {
+					return
+				}
+				switch calleeName(call.Common()) {
+				case "regexp.MustCompile", "regexp.MatchString", "regexp.Compile":
+				default:
+					return
+				}
+				pat, ok := constString(call.Call.Args[0])
+				if !ok {
+					return
+				}
+				re, err := syntax.Parse(pat, syntax.Perl)
+				if err != nil {
+					return
+				}
+				var find func(x *syntax.Regexp) *syntax.Regexp
+				find = func(x *syntax.Regexp) *syntax.Regexp {
+					if (x.Op == syntax.OpPlus || x.Op == syntax.OpStar) && len(x.Sub) == 1 && x.Sub[0].Op == syntax.OpCharClass {
+						return x.Sub[0]
+					}
+					for _, s := range x.Sub {
+						if c := find(s); c != nil {
+							return c
+						}
+					}
+					return nil
+				}
+				if cl := find(re); cl != nil {
+					classes = append(classes, fmt.Sprint(cl.Rune))
+					where = append(where, call.Pos())
+					fns = append(fns, f)
+				}
+			})
+		}
+	}
+	for i := range classes {
+		r.check(classes[i] == classes[0], fmt.Sprintf("fzf.nthTransformer:field-expression pattern #%d uses the common class", i+1), where[i], fns[i],
+			"same character class as the plain form", "this pattern's character class differs from the plain form's: the two forms accept different field expressions")
+	}
+	r.floor("field-expression patterns", len(classes), 3)
+}
+
+// c11r16: colorOffsets paints one cell record per character and cuts a new colour span wherever the record
+// changes. The cut has to compare the WHOLE record (colour index, match flag, nth flag ...): a comparison
+// that ignores a field merges spans that differ in it (round-7 mutant C11b7 merged adjacent matched cells
+// regardless of their ANSI colour).
+func c11r16(c *Ctx, r *Report) {
+	l := c.L
+	r.rule("C11-R16", "A (the span boundary test is a total comparison)", "P1",
+		"in Result.colorOffsets, the call that closes a span inside the loop over the cells is control dependent on an (in)equality of two cellInfo values as a whole",
+		"two differently coloured spans that touch inside a match are drawn in one colour")
+	co := l.Fn("fzf", "(*Result).colorOffsets")
+	if co == nil {
+		r.unest("anchors", token.NoPos, nil, "anchor Result.colorOffsets", "cannot resolve")
+		return
+	}
+	loops := natLoops(co)
+	cc := cdCache{}
+	n := 0
+	eachInstr(co, func(in ssa.Instruction) {
+		call, ok := in.(*ssa.Call)
+		if !ok || call.Common().StaticCallee() == nil || call.Common().StaticCallee().Parent() != co {
+			return
+		}
+		inLoop := false
+		for _, lp := range loops {
+			if lp.body[in.Block()] {
+				inLoop = true
+			}
+		}
+		if !inLoop || len(call.Call.Args) < 1 {
+			return
+		}
+		// the span-closing closure takes the cell index
+		if bt, ok := call.Call.Args[len(call.Call.Args)-1].Type().Underlying().(*types.Basic); !ok || bt.Info()&types.IsInteger == 0 {
+			return
+		}
+		total := false
+		for cond := range cc.of(in) {
+			if b, ok := cond.(*ssa.BinOp); ok && (b.Op == token.NEQ || b.Op == token.EQL) {
+				if nt, ok := b.X.Type().(*types.Named); ok && nt.Obj().Name() == "cellInfo" {
+					total = true
+				}
+			}
+		}
+		if len(cc.of(in)) == 0 {
+			return
+		}
+		n++
+		r.check(total, fmt.Sprintf("%s:span cut #%d compares whole cells", relName(co), n), call.Pos(), co, "cellInfo values are compared as a whole", "the span is cut under a condition that is not a comparison of the two cell records as a whole: cells that differ in an ignored field end up in one span")
+	})
+	r.floor("span cuts inside the cell loop", n, 1)
+}
+
+// c07r11: --accept-nth prints fields of the line as the user sees it: with --ansi the line is tokenised after
+// the escape sequences were removed, exactly as the list was. Item.acceptNth therefore tokenises
+// item.AsString(stripAnsi) with ITS OWN stripAnsi argument (round-7 mutant C11c7 tokenised the raw line and
+// stripped afterwards: sequences that contain delimiter characters shifted the fields).
+func c07r11(c *Ctx, r *Report) {
+	l := c.L
+	r.rule("C07-R11", "D (provenance of the tokenised text)", "P1",
+		"in Item.acceptNth, the text given to Tokenize is the result of Item.AsString called with acceptNth's stripAnsi parameter",
+		"--ansi --accept-nth prints other fields than the ones selected when escape sequences contain the delimiter")
+	an := l.Fn("fzf", "(*Item).acceptNth")
+	tok := l.Fn("fzf", "Tokenize")
+	as := l.Fn("fzf", "(*Item).AsString")
+	if an == nil || tok == nil || as == nil {
+		r.unest("anchors", token.NoPos, nil, "anchors Item.acceptNth / Tokenize / Item.AsString", "cannot resolve")
+		return
+	}
+	var strip *ssa.Parameter
+	for _, p := range an.Params {
+		if bt, ok := p.Type().Underlying().(*types.Basic); ok && bt.Kind() == types.Bool {
+			strip = p
+		}
+	}
+	n := 0
+	eachInstr(an, func(in ssa.Instruction) {
+		call, ok := in.(*ssa.Call)
+		if !ok || !callIs(call.Common(), tok) {
+			return
+		}
+		n++
+		src, ok := call.Call.Args[0].(*ssa.Call)
+		good := ok && callIs(src.Common(), as) && len(src.Call.Args) == 2 && strip != nil && src.Call.Args[1] == ssa.Value(strip)
+		r.check(good, fmt.Sprintf("%s:Tokenize #%d gets the text as displayed", relName(an), n), call.Pos(), an, "Tokenize(item.AsString(stripAnsi), ..)", "the tokenised text is not AsString(stripAnsi): the fields are cut on another text than the one the list shows")
+	})
+	r.floor("Tokenize calls in Item.acceptNth", n, 1)
+}
+
+// c12r9: a preview request carries a template and the item list the template's {+} flags ask for. Both have
+// to be derived from the SAME template (round-7 mutant C12b7 built the list for the --preview option's
+// template while enqueueing the preview(...) action's template).
+func c12r9(c *Ctx, r *Report) {
+	l := c.L
+	r.rule("C12-R9", "E (two uses of one template agree)", "P1",
+		"in every closure of Terminal.Loop that builds a previewRequest, the template stored in the request is the value that was passed to buildPlusList for the request's item list",
+		"preview(... {+} ...) expands {+} to the current line only, or {q}-only previews never run")
+	loop := l.Fn("fzf", "(*Terminal).Loop")
+	bpl := l.Fn("fzf", "(*Terminal).buildPlusList")
+	if loop == nil || bpl == nil {
+		r.unest("anchors", token.NoPos, nil, "anchors Terminal.Loop / buildPlusList", "cannot resolve")
+		return
+	}
+	n := 0
+	for _, fn := range withClosures(loop) {
+		eachInstr(fn, func(in ssa.Instruction) {
+			st, ok := in.(*ssa.Store)
+			if !ok {
+				return
+			}
+			fld, base := fieldOf(st.Addr)
+			if fld == nil || fld.Name() != "template" {
+				return
+			}
+			if nn, ok := deref(base.Type()).(*types.Named); !ok || nn.Obj().Name() != "previewRequest" {
+				return
+			}
+			// the list stored into the same request
+			var list ssa.Value
+			eachInstr(fn, func(i2 ssa.Instruction) {
+				if s2, ok := i2.(*ssa.Store); ok {
+					if f2, b2 := fieldOf(s2.Addr); f2 != nil && f2.Name() == "list" && b2 == base {
+						list = s2.Val
+					}
+				}
+			})
+			if list == nil {
+				return
+			}
+			var src *ssa.Call
+			for w := range backwardSlice(list, nil, nil) {
+				if ex, ok := w.(*ssa.Extract); ok {
+					if call, ok := ex.Tuple.(*ssa.Call); ok && callIs(call.Common(), bpl) {
+						src = call
+					}
+				}
+			}
+			if src == nil {
+				return
+			}
+			n++
+			r.check(samePath(src.Call.Args[1], st.Val, 0), fmt.Sprintf("%s:preview request #%d lists items for its own template", relName(loop), n), src.Pos(), fn,
+				"buildPlusList got the template that is enqueued", "the item list was built for another template than the one stored in the request")
+		})
+	}
+	r.floor("preview requests built from buildPlusList", n, 1)
+}
+
+// c12r10: the string handed to the shell is the expanded template, byte for byte: between the expansion and
+// exec nothing may rewrite it. Executor.ExecCommand and Executor.Become therefore pass their `command`
+// parameter itself (round-7 mutant C12c7 "normalised" CR LF in ExecCommand: quoted item text was altered).
+func c12r10(c *Ctx, r *Report) {
+	l := c.L
+	r.rule("C12-R10", "D (the command reaches exec unmodified)", "P1",
+		"in Executor.ExecCommand and Executor.Become, the command parameter is appended to the shell's argument list as it is: no call takes it as an argument except append and the exec functions",
+		"item text containing CR LF (or whatever the rewrite touches) is changed between quoting and execution")
+	n := 0
+	for _, f := range l.AllFuncs() {
+		if f.Blocks == nil || f.Pkg == nil || f.Pkg.Pkg.Name() != "util" || f.Signature.Recv() == nil {
+			continue
+		}
+		if f.Name() != "ExecCommand" && f.Name() != "Become" {
+			continue
+		}
+		var cmdp *ssa.Parameter
+		for _, p := range f.Params {
+			if p.Name() == "command" {
+				cmdp = p
+			}
+		}
+		if cmdp == nil {
+			continue
+		}
+		n++
+		why := ""
+		der := forwardDerived(f, []ssa.Value{cmdp}, func(*ssa.CallCommon) bool { return true })
+		eachInstr(f, func(in ssa.Instruction) {
+			call, ok := in.(*ssa.Call)
+			if !ok {
+				return
+			}
+			uses := false
+			for _, a := range call.Call.Args {
+				if der[a] {
+					uses = true
+				}
+			}
+			if !uses {
+				return
+			}
+			switch calleeName(call.Common()) {
+			case "builtin.append", "os/exec.Command", "syscall.Exec", "os/exec.CommandContext":
+			default:
+				if call.Common().StaticCallee() != nil && call.Common().StaticCallee().Pkg == f.Pkg && strings.Contains(strings.ToLower(call.Common().StaticCallee().Name()), "exec") {
+					return
+				}
+				why = calleeName(call.Common())
+			}
+		})
+		r.check(why == "", relName(f)+":command reaches exec as given", f.Pos(), f, "only append and exec see the command", "the command passes through "+why+" before it is executed")
+	}
+	r.floor("executor entry points taking a command", n, 2)
+}
+
+// c04r14: a pass-through merger maps a position to (chunk, slot) by division; with --tail the first chunk
+// may be partial, and positions at or beyond its count belong to the following chunks. On the path that
+// indexes chunk idx/chunkSize directly, `idx < firstChunk.count` must therefore hold whenever the first chunk
+// is partial (round-7 mutants C04c7 and C13c7: `idx >= count` became `idx > count`; the position equal to
+// the count read the unused slot of the first chunk — a zero item — and shifted nothing).
+func c04r14(c *Ctx, r *Report) {
+	l := c.L
+	r.rule("C04-R14", "A (path condition of the direct index)", "P1",
+		"in Merger.Get, every path to the access `(*mg.chunks)[idx/chunkSize]` without the +1 either has established that the first chunk is full (count < chunkSize is false) or that idx < firstChunk.count",
+		"with --tail and an empty query one line of the list is an empty phantom item (and the lines after it are shifted by one)")
+	get := l.Fn("fzf", "(*Merger).Get")
+	fCnt := l.Field("fzf", "Chunk", "count")
+	if get == nil || fCnt == nil {
+		r.unest("anchors", token.NoPos, nil, "anchors Merger.Get / Chunk.count", "cannot resolve")
+		return
+	}
+	isCnt := func(v ssa.Value) bool {
+		fld, _ := loadedField(v)
+		return fld == fCnt
+	}
+	pc := pathConds(get)
+	n := 0
+	eachInstr(get, func(in ssa.Instruction) {
+		ia, ok := in.(*ssa.IndexAddr)
+		if !ok {
+			return
+		}
+		q, ok := ia.Index.(*ssa.BinOp)
+		if !ok || q.Op != token.QUO {
+			return
+		}
+		if sl, ok := ia.X.Type().Underlying().(*types.Slice); !ok || !strings.Contains(sl.Elem().String(), "Chunk") {
+			return
+		}
+		n++
+		idx := q.X
+		holds, reach := pc.Implies(in.Block(), func(lits []Lit) bool {
+			for _, lt := range lits {
+				b, ok := lt.Atom.(*ssa.BinOp)
+				if !ok {
+					continue
+				}
+				// the first chunk is full
+				if isCnt(b.X) {
+					if _, isK := constIntVal(b.Y); isK && (b.Op == token.LSS && !lt.Val || b.Op == token.GEQ && lt.Val) {
+						return true
+					}
+				}
+				// idx < count
+				switch {
+				case b.X == idx && isCnt(b.Y) && (b.Op == token.GEQ && !lt.Val || b.Op == token.LSS && lt.Val):
+					return true
+				case isCnt(b.X) && b.Y == idx && (b.Op == token.LEQ && !lt.Val || b.Op == token.GTR && lt.Val):
+					return true
+				}
+			}
+			return false
+		})
+		r.check(holds && reach, fmt.Sprintf("%s:direct chunk index #%d stays inside the first chunk's items", relName(get), n), ia.Pos(), get,
+			"first chunk full, or idx < its count", "a path reaches this access with a partial first chunk and idx possibly equal to its count: the unused slot behind the last item is returned")
+	})
+	r.floor("direct chunk accesses in Merger.Get", n, 1)
+}
+
+// samePath: a and b are the same SSA value, or loads through the same chain of fields from the same root.
+func samePath(a, b ssa.Value, d int) bool {
+	if a == b {
+		return true
+	}
+	if d > 6 {
+		return false
+	}
+	ua, ok1 := a.(*ssa.UnOp)
+	ub, ok2 := b.(*ssa.UnOp)
+	if ok1 && ok2 && ua.Op == token.MUL && ub.Op == token.MUL {
+		if ua.X == ub.X {
+			return true // two loads of the same variable (a captured receiver, a global)
+		}
+		fa, ok1 := ua.X.(*ssa.FieldAddr)
+		fb, ok2 := ub.X.(*ssa.FieldAddr)
+		if ok1 && ok2 && fa.Field == fb.Field && types.Identical(fa.X.Type(), fb.X.Type()) {
+			return samePathAddr(fa.X, fb.X, d+1)
+		}
+	}
+	return false
+}
+
+func samePathAddr(a, b ssa.Value, d int) bool {
+	if a == b {
+		return true
+	}
+	fa, ok1 := a.(*ssa.FieldAddr)
+	fb, ok2 := b.(*ssa.FieldAddr)
+	if ok1 && ok2 && fa.Field == fb.Field && types.Identical(fa.X.Type(), fb.X.Type()) {
+		return samePathAddr(fa.X, fb.X, d+1)
+	}
+	return samePath(a, b, d+1)
+}
+
+// c15r9: with --input-border (or --style full) the prompt lives in a window of its own, which can be narrower
+// than the list window. Every computation that sets the prompt width against a window width has to take the
+// input window when there is one (round-7 mutant C15c7 made updatePromptOffset always use the list window: a
+// long query ran over the right edge of the input window).
+func c15r9(c *Ctx, r *Report) {
+	l := c.L
+	r.rule("C15-R9", "E (siblings agree on which window bounds the prompt)", "P1",
+		"in every method of Terminal that reads Terminal.promptLen, each Width() call on a window that meets Terminal.promptLen in one arithmetic expression either has a receiver that may be Terminal.inputWindow or is control dependent on a test of Terminal.inputWindow",
+		"the query is laid out for the width of the list window and overflows the narrower input window")
+	fPL := l.Field("fzf", "Terminal", "promptLen")
+	fIW := l.Field("fzf", "Terminal", "inputWindow")
+	if fPL == nil || fIW == nil {
+		r.unest("anchors", token.NoPos, nil, "anchors Terminal.promptLen / Terminal.inputWindow", "cannot resolve")
+		return
+	}
+	cc := cdCache{}
+	n := 0
+	for _, fn := range l.AllFuncs() {
+		if fn.Blocks == nil || fn.Pkg != l.pkg("fzf") {
+			continue
+		}
+		reads := false
+		eachInstr(fn, func(in ssa.Instruction) {
+			if u, ok := in.(*ssa.UnOp); ok && u.Op == token.MUL {
+				if fld, _ := fieldOf(u.X); fld == fPL {
+					reads = true
+				}
+			}
+		})
+		if !reads {
+			continue
+		}
+		k := 0
+		eachInstr(fn, func(in ssa.Instruction) {
+			call, ok := in.(*ssa.Call)
+			if !ok || !call.Common().IsInvoke() || call.Common().Method.Name() != "Width" {
+				return
+			}
+			// only widths that meet promptLen in an expression
+			meets := false
+			eachInstr(fn, func(i2 ssa.Instruction) {
+				b, ok := i2.(*ssa.BinOp)
+				if !ok {
+					return
+				}
+				// one arithmetic expression: operands reached through binary operations only
+				hasW, hasP := false, false
+				var walk func(v ssa.Value, d int)
+				walk = func(v ssa.Value, d int) {
+					if v == ssa.Value(call) {
+						hasW = true
+					}
+					if fld, _ := loadedField(v); fld == fPL {
+						hasP = true
+					}
+					if bb, ok := v.(*ssa.BinOp); ok && d < 6 {
+						walk(bb.X, d+1)
+						walk(bb.Y, d+1)
+					}
+				}
+				walk(b, 0)
+				if hasW && hasP {
+					meets = true
+				}
+			})
+			if !meets {
+				return
+			}
+			n++
+			k++
+			okW := false
+			for w := range backwardSlice(call.Common().Value, nil, nil) {
+				if fld, _ := loadedField(w); fld == fIW {
+					okW = true
+				}
+			}
+			for cond := range cc.of(in) {
+				for w := range backwardSlice(cond, nil, nil) {
+					if fld, _ := loadedField(w); fld == fIW {
+						okW = true
+					}
+				}
+			}
+			r.check(okW, fmt.Sprintf("%s:window width #%d set against the prompt considers the input window", relName(rootFn(fn)), k), call.Pos(), fn,
+				"the input window is taken when there is one", "the width of the list window bounds the prompt even when the prompt has a window of its own")
+		})
+	}
+	r.floor("window widths combined with the prompt length", n, 1)
+}
+
+// c14r12: the render goroutine takes the request box's lock (EventBox.Wait) and, inside the callback, Terminal.mutex;
+// so nothing may post to Terminal.reqBox while holding Terminal.mutex — the opposite order deadlocks as soon as
+// the box's callback is waiting for the mutex (the code says "Must be unlocked before touching reqBox").
+// Checked per function: a post is made only after the function's own Lock has been released (round-7 mutant
+// C14c7 turned UpdateList's explicit Unlock into a `defer`).
+func c14r12(c *Ctx, r *Report) {
+	l := c.L
+	r.rule("C14-R12", "B (lock order: reqBox before Terminal.mutex)", "P1",
+		"in every function of package fzf, a call of EventBox.Set on Terminal.reqBox is made with no Terminal.mutex acquired earlier in the same function still held",
+		"the coordinator (UpdateList) and the render goroutine block each other for ever: fzf stops responding")
+	set := l.Fn("util", "(*EventBox).Set")
+	fRB := l.Field("fzf", "Terminal", "reqBox")
+	if set == nil || fRB == nil {
+		r.unest("anchors", token.NoPos, nil, "anchors EventBox.Set / Terminal.reqBox", "cannot resolve")
+		return
+	}
+	n := 0
+	for _, fn := range l.AllFuncs() {
+		if fn.Blocks == nil || fn.Pkg != l.pkg("fzf") {
+			continue
+		}
+		var sets map[ssa.Instruction]lockState
+		k := 0
+		eachInstr(fn, func(in ssa.Instruction) {
+			call, ok := in.(*ssa.Call)
+			if !ok || !callIs(call.Common(), set) {
+				return
+			}
+			if fld, _ := loadedField(call.Call.Args[0]); fld != fRB {
+				return
+			}
+			n++
+			k++
+			if sets == nil {
+				sets = locksets(fn, lockState{})
+			}
+			held := sets[in]["Terminal.mutex"]
+			r.check(!held, fmt.Sprintf("%s:post #%d to reqBox is made without Terminal.mutex", relName(fn), k), call.Pos(), fn,
+				"the function's own lock on Terminal.mutex has been released", "Terminal.mutex, locked earlier in this function, is still held when the request box is posted to: lock order reqBox -> mutex is inverted")
+		})
+	}
+	r.floor("posts to Terminal.reqBox", n, 10)
+}
+
+// c17r15: option parsers fill small fixed-size arrays through a counter that is bumped inside a loop. The
+// counter indexes the array at the top of the next iteration, so every way back to the loop header has to
+// have excluded "counter == length" (round-7 mutant C17b7 dropped `if idx == 3 { break }` from
+// parseMarkerMultiLine: a marker string followed by a zero-width cluster indexed result[3] and panicked).
+func c17r15(c *Ctx, r *Report) {
+	l := c.L
+	r.rule("C17-R15", "A (bounded counter: every back edge excludes the length)", "P1",
+		"in options.go, for every element address of a fixed-size array whose index is a counter carried around a loop (initial constant below the length, incremented by 1), every back edge of the loop is taken only under a comparison that excludes counter == length (or bounds it below the length)",
+		"index out of range while parsing an option value: a crash instead of an error message and exit status 2")
+	n := 0
+	for _, fn := range l.AllFuncs() {
+		if fn.Blocks == nil || fn.Pkg != l.pkg("fzf") || !strings.HasSuffix(l.Fset.Position(fn.Pos()).Filename, "options.go") {
+			continue
+		}
+		var pc *PathConds
+		loops := natLoops(fn)
+		k := 0
+		eachInstr(fn, func(in ssa.Instruction) {
+			ia, ok := in.(*ssa.IndexAddr)
+			if !ok {
+				return
+			}
+			arr, ok := deref(ia.X.Type()).Underlying().(*types.Array)
+			if !ok {
+				return
+			}
+			phi, ok := ia.Index.(*ssa.Phi)
+			if !ok {
+				return
+			}
+			var lp *natLoop
+			for i := range loops {
+				if loops[i].hdr == phi.Block() {
+					lp = &loops[i]
+				}
+			}
+			if lp == nil {
+				return
+			}
+			N := arr.Len()
+			// the counter's web: the header phi, phis fed by it, and +1 increments
+			web := map[ssa.Value]bool{phi: true}
+			shape := true
+			var grow func(v ssa.Value, d int)
+			grow = func(v ssa.Value, d int) {
+				if web[v] || d > 8 {
+					return
+				}
+				switch x := v.(type) {
+				case *ssa.Phi:
+					web[x] = true
+					for _, e := range x.Edges {
+						grow(e, d+1)
+					}
+				case *ssa.BinOp:
+					if x.Op == token.ADD && isConstInt(x.Y, 1) {
+						web[x] = true
+						grow(x.X, d+1)
+					} else {
+						shape = false
+					}
+				case *ssa.Const:
+					if kk, ok := constIntVal(x); !ok || kk < 0 || kk >= N {
+						shape = false
+					}
+				default:
+					shape = false
+				}
+			}
+			for _, e := range phi.Edges {
+				grow(e, 0)
+			}
+			if !shape {
+				return // not a simple counter: other rules (constant indexes, length facts) apply
+			}
+			n++
+			k++
+			if pc == nil {
+				pc = pathConds(fn)
+			}
+			bad := ""
+			for ei, p := range phi.Block().Preds {
+				if !lp.body[p] {
+					continue
+				}
+				_ = ei
+				holds, reach := pc.Implies(p, func(lits []Lit) bool {
+					for _, lt := range lits {
+						b, ok := lt.Atom.(*ssa.BinOp)
+						if !ok || !web[b.X] {
+							continue
+						}
+						kk, isK := constIntVal(b.Y)
+						if !isK {
+							continue
+						}
+						switch {
+						case b.Op == token.EQL && !lt.Val && kk == N, b.Op == token.NEQ && lt.Val && kk == N:
+							return true
+						case b.Op == token.LSS && lt.Val && kk <= N, b.Op == token.GEQ && !lt.Val && kk <= N:
+							return true
+						case b.Op == token.LEQ && lt.Val && kk < N, b.Op == token.GTR && !lt.Val && kk < N:
+							return true
+						}
+					}
+					return false
+				})
+				// path facts about loop-carried values are dropped on back edges by construction, so the branch
+				// that closes the loop is read directly
+				if iff, ok := p.Instrs[len(p.Instrs)-1].(*ssa.If); ok && !holds {
+					if b, ok := iff.Cond.(*ssa.BinOp); ok && web[b.X] {
+						if kk, isK := constIntVal(b.Y); isK {
+							onTrue := p.Succs[0] == phi.Block()
+							switch {
+							case b.Op == token.EQL && kk == N && !onTrue, b.Op == token.NEQ && kk == N && onTrue:
+								holds = true
+							case b.Op == token.LSS && kk <= N && onTrue, b.Op == token.GEQ && kk <= N && !onTrue:
+								holds = true
+							}
+						}
+					}
+				}
+				if reach && !holds {
+					bad = l.pos(p.Instrs[len(p.Instrs)-1].Pos())
+				}
+			}
+			r.check(bad == "", fmt.Sprintf("%s:counter index #%d into [%d]%s stays below the length", relName(fn), k, N, arr.Elem().String()), ia.Pos(), fn,
+				"every back edge excludes counter == length", "the loop can come round with the counter equal to the array length: the next element address is out of range")
+		})
+	}
+	r.floor("counter-indexed fixed-size arrays in option parsers", n, 1)
+}
+
+// c17r16: the functions of package fzf that hand out a *tui.ColorTheme for option parsing to edit (parseTheme
+// and the like) return private copies, never one of package tui's shared themes (the sibling of C17-R14 for
+// values that reach Options.Theme through a return; round-7 mutant C17c7: `theme = tui.Light256`).
+func c17r16(c *Ctx, r *Report) {
+	l := c.L
+	r.rule("C17-R16", "F (alias of shared storage through a return value)", "P1",
+		"no function of package fzf returns, as a *tui.ColorTheme, the load of a package-level variable",
+		"--color=light,... edits the shared light theme in place: a later --color=light does not start from the pristine theme")
+	n := 0
+	for _, fn := range l.AllFuncs() {
+		if fn.Blocks == nil || fn.Pkg != l.pkg("fzf") || fn.Signature.Results().Len() == 0 {
+			continue
+		}
+		pt, ok := fn.Signature.Results().At(0).Type().(*types.Pointer)
+		if !ok {
+			continue
+		}
+		nt, ok := pt.Elem().(*types.Named)
+		if !ok || nt.Obj().Name() != "ColorTheme" {
+			continue
+		}
+		n++
+		shared := ""
+		eachInstr(fn, func(in ssa.Instruction) {
+			ret, ok := in.(*ssa.Return)
+			if !ok {
+				return
+			}
+			for w := range backwardSlice(retResult(ret, 0), nil, nil) {
+				if u, ok := w.(*ssa.UnOp); ok && u.Op == token.MUL {
+					if g, ok := u.X.(*ssa.Global); ok {
+						shared = g.Name()
+					}
+				}
+			}
+		})
+		r.check(shared == "", relName(fn)+":returns a private theme", fn.Pos(), fn, "every returned theme is a copy", "the shared theme "+shared+" itself can be returned and is then edited in place by the caller")
+	}
+	r.floor("functions of package fzf returning a *ColorTheme", n, 1)
+}
+
+// c16r12..r14: three decisions around the listener.
+func c16r12(c *Ctx, r *Report) {
+	l := c.L
+	// ---- R12: request numbers are parsed into the type they are used in
+	r.rule("C16-R12", "D (no narrowing or sign-changing conversion of a request number)", "P1",
+		"every value stored into a field of getParams is the constant default or the result of a parser whose result type is the field's type; no conversion from another integer type is on the way",
+		"GET /?offset=18446744073709551615 becomes offset -1: index out of range in dumpStatus, fzf crashes")
+	pg := l.Fn("fzf", "parseGetParams")
+	if pg == nil {
+		r.unest("anchors", token.NoPos, nil, "anchor parseGetParams", "cannot resolve")
+	} else {
+		n := 0
+		eachInstr(pg, func(in ssa.Instruction) {
+			st, ok := in.(*ssa.Store)
+			if !ok {
+				return
+			}
+			fld, base := fieldOf(st.Addr)
+			if fld == nil {
+				return
+			}
+			if nn, ok := deref(base.Type()).(*types.Named); !ok || nn.Obj().Name() != "getParams" {
+				return
+			}
+			n++
+			conv := false
+			for w := range backwardSlice(st.Val, nil, nil) {
+				if cv, ok := w.(*ssa.Convert); ok {
+					if bt, ok := cv.X.Type().Underlying().(*types.Basic); ok && bt.Info()&types.IsInteger != 0 {
+						conv = true
+					}
+				}
+			}
+			r.check(!conv, fmt.Sprintf("%s:store #%d into getParams.%s keeps the parsed type", relName(pg), n, fld.Name()), st.Pos(), pg, "no integer conversion between the parser and the field", "the parsed number is converted to the field's type: values outside its range wrap around (negative offset)")
+		})
+		r.floor("stores into getParams", n, 2)
+	}
+	cc := cdCache{}
+	// ---- R13: actions received from the server are executed in jump mode too
+	r.rule("C16-R13", "A (the dispatch is reachable with pending server actions whatever the jump mode)", "P1",
+		"in Terminal.Loop, the call that runs the pending action list (doActions(actions)) is not control dependent on Terminal.jumping alone: some path reaches it on which the test `jumping == jumpDisabled` is false",
+		"a POST that arrives while fzf is in jump mode is swallowed as a jump key: the body is not executed as the same --bind list would be")
+	loop := l.Fn("fzf", "(*Terminal).Loop")
+	fJ := l.Field("fzf", "Terminal", "jumping")
+	if loop == nil || fJ == nil {
+		r.unest("anchors", token.NoPos, nil, "anchors Terminal.Loop / Terminal.jumping", "cannot resolve")
+	} else {
+		n := 0
+		eachInstr(loop, func(in ssa.Instruction) {
+			call, ok := in.(*ssa.Call)
+			if !ok || call.Common().IsInvoke() || len(call.Call.Args) != 1 {
+				return
+			}
+			// doActions(actions): a closure call whose argument is the loop's `actions` list (a phi of server
+			// input and keymap lookup)
+			if _, isSl := call.Call.Args[0].Type().Underlying().(*types.Slice); !isSl || !strings.Contains(call.Call.Args[0].Type().String(), "action") {
+				return
+			}
+			fromServer := false
+			for w := range backwardSlice(call.Call.Args[0], nil, nil) {
+				if ex, ok := w.(*ssa.Extract); ok {
+					if _, isSel := ex.Tuple.(*ssa.Select); isSel {
+						fromServer = true
+					}
+				}
+			}
+			if !fromServer {
+				return
+			}
+			if _, isB := call.Common().Value.(*ssa.Builtin); isB {
+				return
+			}
+			// the tests of the jump mode that dominate the dispatch
+			for _, b := range loop.Blocks {
+				iff, ok := b.Instrs[len(b.Instrs)-1].(*ssa.If)
+				if !ok || !b.Dominates(in.Block()) {
+					continue
+				}
+				cmp, ok := iff.Cond.(*ssa.BinOp)
+				if !ok || (cmp.Op != token.EQL && cmp.Op != token.NEQ) {
+					continue
+				}
+				if fld, _ := loadedField(cmp.X); fld != fJ {
+					continue
+				}
+				if _, isK := constIntVal(cmp.Y); !isK {
+					continue
+				}
+				n++
+				// the successor taken when fzf IS in jump mode
+				inJump := b.Succs[1]
+				if cmp.Op == token.NEQ {
+					inJump = b.Succs[0]
+				}
+				goal := pathAvoiding(inJump.Instrs[0], func(i ssa.Instruction) bool { return i == ssa.Instruction(call) }, func(ssa.Instruction) bool { return false },
+					func(from, to *ssa.BasicBlock) bool { return !to.Dominates(from) })
+				r.check(goal != nil || inJump.Instrs[0] == ssa.Instruction(call), fmt.Sprintf("%s:dispatch of the pending actions is reachable in jump mode (test #%d)", relName(loop), n), call.Pos(), loop,
+					"reachable from the in-jump-mode branch within the same iteration (when actions are pending)", "the pending actions are dispatched only when jump mode is off")
+			}
+		})
+		r.floor("dispatches of the pending action list under a jump-mode test", n, 1)
+	}
+	// ---- R14: a listener needs the previewer
+	r.rule("C16-R14", "A (the listener alone decides)", "P1",
+		"in mayTriggerPreview, a return of true is control dependent on the test of Options.ListenAddr and on nothing else",
+		"preview(...) / change-preview(...) posted to a listener do nothing because no previewer was started, although the same list from --bind works")
+	mtp := l.Fn("fzf", "mayTriggerPreview")
+	if mtp == nil {
+		r.unest("anchors", token.NoPos, nil, "anchor mayTriggerPreview", "cannot resolve")
+		return
+	}
+	found := false
+	eachInstr(mtp, func(in ssa.Instruction) {
+		ret, ok := in.(*ssa.Return)
+		if !ok || len(ret.Results) != 1 {
+			return
+		}
+		if k, ok := ret.Results[0].(*ssa.Const); !ok || k.Value == nil || k.Value.String() != "true" {
+			return
+		}
+		conds := cc.of(in)
+		onlyListen := len(conds) > 0
+		for cond := range conds {
+			isL := false
+			for w := range backwardSlice(cond, nil, nil) {
+				if fld, _ := loadedField(w); fld != nil && fld.Name() == "ListenAddr" {
+					isL = true
+				}
+			}
+			if !isL {
+				onlyListen = false
+			}
+		}
+		if onlyListen {
+			found = true
+		}
+	})
+	r.check(found, relName(mtp)+":a listener alone makes a preview possible", mtp.Pos(), mtp, "`return true` under ListenAddr != nil only", "no return of true depends on the listener alone: with --listen and no preview binding the previewer is not started")
+}
+
+// c18r10: the history file is rewritten as a whole whenever a query is appended, and the new content can be
+// shorter than the old one (an entry fell out at the cap). Whoever writes it must truncate: os.WriteFile does;
+// an os.OpenFile for writing needs O_TRUNC (round-7 mutant C18a7 wrote line by line through
+// OpenFile(O_WRONLY|O_CREATE): the tail of the longer old content stayed in the file as phantom entries).
+func c18r10(c *Ctx, r *Report) {
+	l := c.L
+	r.rule("C18-R10", "B (census of the writers of the history file)", "P1",
+		"every method of History that writes the file does it with os.WriteFile, or with os.OpenFile whose constant flags contain O_TRUNC (or O_APPEND)",
+		"after the cap is reached the file keeps bytes of its previous, longer content: entries that were never submitted appear in the next session")
+	n := 0
+	for _, fn := range l.AllFuncs() {
+		if fn.Blocks == nil || fn.Pkg != l.pkg("fzf") || rootFn(fn).Signature.Recv() == nil {
+			continue
+		}
+		if nn, ok := deref(rootFn(fn).Signature.Recv().Type()).(*types.Named); !ok || nn.Obj().Name() != "History" {
+			continue
+		}
+		eachInstr(fn, func(in ssa.Instruction) {
+			call, ok := in.(*ssa.Call)
+			if !ok {
+				return
+			}
+			switch calleeName(call.Common()) {
+			case "os.WriteFile":
+				n++
+				r.ok(fmt.Sprintf("%s:writer #%d truncates", relName(rootFn(fn)), n), call.Pos(), fn, "os.WriteFile replaces the content")
+			case "os.OpenFile", "os.Create":
+				n++
+				good := calleeName(call.Common()) == "os.Create"
+				if !good {
+					if fl, ok := constIntVal(call.Call.Args[1]); ok {
+						const oWRONLY, oRDWR, oAPPEND, oTRUNC = 0x1, 0x2, 0x400, 0x200
+						if fl&(oWRONLY|oRDWR) == 0 || fl&(oTRUNC|oAPPEND) != 0 {
+							good = true
+						}
+					}
+				}
+				r.check(good, fmt.Sprintf("%s:writer #%d truncates", relName(rootFn(fn)), n), call.Pos(), fn, "opened with O_TRUNC / O_APPEND", "the file is opened for writing without O_TRUNC: a shorter new content leaves the tail of the old one in place")
+			}
+		})
+	}
+	r.floor("writers of the history file", n, 1)
+}
+
+// c18r11: trimQuery prepares a stored or given query for the prompt; the only change it may make is TAB ->
+// space (a TAB cannot be shown in the prompt). Anything else alters what is later submitted and stored
+// (round-7 mutant C18b7 also trimmed surrounding blanks: an entry ` foo ` came back as `foo` and was stored
+// as a new, different entry).
+func c18r11(c *Ctx, r *Report) {
+	l := c.L
+	r.rule("C18-R11", "D (census of the transformers in trimQuery)", "P1",
+		"in trimQuery, the only call that takes (a value derived from) the parameter is strings.ReplaceAll with the constant old string \"\\t\"",
+		"navigating to a stored entry with leading/trailing blanks and submitting it stores a different entry")
+	tq := l.Fn("fzf", "trimQuery")
+	if tq == nil || len(tq.Params) != 1 {
+		r.unest("anchors", token.NoPos, nil, "anchor trimQuery", "cannot resolve")
+		return
+	}
+	der := forwardDerived(tq, []ssa.Value{tq.Params[0]}, func(*ssa.CallCommon) bool { return true })
+	n := 0
+	eachInstr(tq, func(in ssa.Instruction) {
+		call, ok := in.(*ssa.Call)
+		if !ok {
+			return
+		}
+		uses := false
+		for _, a := range call.Call.Args {
+			if der[a] {
+				uses = true
+			}
+		}
+		if !uses {
+			return
+		}
+		n++
+		good := false
+		if calleeName(call.Common()) == "strings.ReplaceAll" {
+			if old, ok := constString(call.Call.Args[1]); ok && old == "\t" {
+				good = true
+			}
+		}
+		r.check(good, fmt.Sprintf("%s:transformer #%d is the TAB replacement", relName(tq), n), call.Pos(), tq, "strings.ReplaceAll(_, \"\\t\", _)", "the query passes through "+calleeName(call.Common())+": it is no longer the stored text")
+	})
+	r.floor("transformers in trimQuery", n, 1)
+}
+
+// c19r8: fzf walks the file system itself when $FZF_DEFAULT_COMMAND is EMPTY, which includes "set to the
+// empty string" (the usual way to switch a globally exported command off for one call). The decision in
+// ReadSource therefore has to test the value's emptiness (round-7 mutant C19a7 tested whether the variable is
+// defined: `FZF_DEFAULT_COMMAND= fzf` ran an empty command and listed nothing).
+func c19r8(c *Ctx, r *Report) {
+	l := c.L
+	r.rule("C19-R8", "A (the walker branch depends on the emptiness of the variable's value)", "P1",
+		"in Reader.ReadSource, the call of readFiles is control dependent on a test of the length (or of equality with \"\") of a value obtained from os.Getenv / os.LookupEnv",
+		"with FZF_DEFAULT_COMMAND set to the empty string the built-in walker is not used and the list is empty")
+	rs := l.Fn("fzf", "(*Reader).ReadSource")
+	rf := l.Fn("fzf", "(*Reader).readFiles")
+	if rs == nil || rf == nil {
+		r.unest("anchors", token.NoPos, nil, "anchors Reader.ReadSource / Reader.readFiles", "cannot resolve")
+		return
+	}
+	cc := cdCache{}
+	n := 0
+	eachInstr(rs, func(in ssa.Instruction) {
+		call, ok := in.(*ssa.Call)
+		if !ok || !callIs(call.Common(), rf) {
+			return
+		}
+		n++
+		onEmpty := false
+		for cond := range cc.of(in) {
+			b, ok := cond.(*ssa.BinOp)
+			if !ok {
+				continue
+			}
+			fromEnv := func(v ssa.Value) bool {
+				return dependsOnCall(v, func(c2 *ssa.Call) bool {
+					nm := calleeName(c2.Common())
+					return nm == "os.Getenv" || nm == "os.LookupEnv"
+				})
+			}
+			for _, side := range []ssa.Value{b.X, b.Y} {
+				// len(value) compared, or the string itself compared with a constant
+				if lc, ok := side.(*ssa.Call); ok && calleeName(lc.Common()) == "builtin.len" && fromEnv(lc.Call.Args[0]) {
+					onEmpty = true
+				}
+				if bt, ok := side.Type().Underlying().(*types.Basic); ok && bt.Info()&types.IsString != 0 && fromEnv(side) {
+					onEmpty = true
+				}
+			}
+		}
+		r.check(onEmpty, fmt.Sprintf("%s:walker call #%d is taken when the default command is empty", relName(rs), n), call.Pos(), rs,
+			"the branch tests the emptiness of the variable's value", "the walker is chosen by something else than the emptiness of $FZF_DEFAULT_COMMAND (e.g. whether it is defined)")
+	})
+	r.floor("calls of readFiles in ReadSource", n, 1)
+}
+
+// c20r14: "is anything selected?" is a test against zero everywhere: {+} stands for the selection as soon as
+// ONE line is selected (round-7 mutant C20c7 made buildPlusList ask for more than one: with a single selected
+// line and the cursor elsewhere, {+} expanded to the line under the cursor).
+func c20r14(c *Ctx, r *Report) {
+	l := c.L
+	r.rule("C20-R14", "H (constant agreement of the emptiness tests)", "P1",
+		"every comparison of len(Terminal.selected) with an integer constant in package fzf compares with 0",
+		"{+} / {+f} / {+n} substitute the current line although exactly one other line is selected")
+	fSel := l.Field("fzf", "Terminal", "selected")
+	if fSel == nil {
+		r.unest("anchors", token.NoPos, nil, "anchor Terminal.selected", "cannot resolve")
+		return
+	}
+	n := 0
+	for _, fn := range l.AllFuncs() {
+		if fn.Blocks == nil || fn.Pkg != l.pkg("fzf") {
+			continue
+		}
+		k := 0
+		eachInstr(fn, func(in ssa.Instruction) {
+			b, ok := in.(*ssa.BinOp)
+			if !ok {
+				return
+			}
+			switch b.Op {
+			case token.EQL, token.NEQ, token.LSS, token.LEQ, token.GTR, token.GEQ:
+			default:
+				return
+			}
+			for _, pr := range [][2]ssa.Value{{b.X, b.Y}, {b.Y, b.X}} {
+				lc, ok := pr[0].(*ssa.Call)
+				if !ok || calleeName(lc.Common()) != "builtin.len" {
+					continue
+				}
+				if fld, _ := loadedField(lc.Call.Args[0]); fld != fSel {
+					continue
+				}
+				kk, isK := constIntVal(pr[1])
+				if !isK {
+					continue
+				}
+				n++
+				k++
+				r.check(kk == 0, fmt.Sprintf("%s:size test #%d of the selection is an emptiness test", relName(rootFn(fn)), k), b.Pos(), fn, "compared with 0", fmt.Sprintf("the selection's size is compared with %d: one selected line is treated as none", kk))
+			}
+		})
+	}
+	r.floor("comparisons of the selection's size with a constant", n, 5)
+}
+
+// c12r11: the tmux / proxy relaunch script rebuilds fzf's own command line from os.Args with
+// escapeSingleQuote. Every word has to come out quoted — an "obviously safe" word left bare includes the EMPTY
+// word, which then vanishes from the command line and shifts the arguments after it (round-7 mutant C19c7:
+// `--walker-skip ''` lost its value in the popup and swallowed the next option).
+func c12r11(c *Ctx, r *Report) {
+	l := c.L
+	r.rule("C12-R11", "A (every return is a quoted word)", "P1",
+		"every value returned by escapeSingleQuote is a concatenation whose first and last operands are the constant single quote",
+		"an empty (or otherwise 'safe') argument is dropped or re-split when fzf relaunches itself inside tmux")
+	esq := l.Fn("fzf", "escapeSingleQuote")
+	if esq == nil {
+		r.unest("anchors", token.NoPos, nil, "anchor escapeSingleQuote", "cannot resolve")
+		return
+	}
+	n := 0
+	eachInstr(esq, func(in ssa.Instruction) {
+		ret, ok := in.(*ssa.Return)
+		if !ok || len(ret.Results) != 1 {
+			return
+		}
+		n++
+		v := retResult(ret, 0)
+		var leaves []ssa.Value
+		var flat func(x ssa.Value)
+		flat = func(x ssa.Value) {
+			if b, ok := x.(*ssa.BinOp); ok && b.Op == token.ADD {
+				flat(b.X)
+				flat(b.Y)
+				return
+			}
+			leaves = append(leaves, x)
+		}
+		flat(v)
+		q := func(x ssa.Value) bool { s, ok := constString(x); return ok && s == "'" }
+		r.check(len(leaves) >= 3 && q(leaves[0]) && q(leaves[len(leaves)-1]), fmt.Sprintf("%s:return #%d is a quoted word", relName(esq), n), ret.Pos(), esq,
+			"'...' on this path", "this return hands the argument back without quotes")
+	})
+	r.floor("returns of escapeSingleQuote", n, 1)
 }
